@@ -38,8 +38,17 @@ Definition list_nat_eqb (x y : list nat) : bool :=
 
 Definition dummy : entry := mkE [] [].
 
+Fixpoint same_list (a b : list entry) : bool :=
+  match a, b with
+  | [], [] => true
+  | x :: a', y :: b' => entry_eqb x y &&& same_list a' b'
+  | _, _ => false
+  end.
+
+(* archives are compared as sets (with equal length); the O(n) ordered comparison is only a shortcut *)
 Definition same_set (a : archive) (b : list entry) : bool :=
-  Nat.eqb (length a) (length b) &&& subset_b a b &&& subset_b b a.
+  if same_list a b then true
+  else Nat.eqb (length a) (length b) &&& subset_b a b &&& subset_b b a.
 
 Definition res_bool_eqb (r s : res bool) : bool :=
   match r, s with Ok x, Ok y => Bool.eqb x y | Panic, Panic => true | _, _ => false end.
